@@ -107,6 +107,9 @@ func (gn *Geneve) DecodeFromBytes(data []byte, df gopacket.DecodeFeedback) error
 		if err != nil {
 			return err
 		}
+		if int32(len) > length {
+			return errors.New("geneve option exceeds the options length")
+		}
 		gn.Options = append(gn.Options, opt)
 
 		length -= int32(len)
